@@ -18,6 +18,7 @@
 #include <fcntl.h>
 #include <errno.h>
 #include <time.h>
+#include <sys/time.h>
 #include <dlfcn.h>
 #include <ucontext.h>
 #include <sys/mman.h>
@@ -356,6 +357,7 @@ static const char *v_fault_slot(void)
 static void v_on_fault(int sig, siginfo_t *si, void *uc_)
 {
 	ucontext_t *uc = uc_;
+	if (sig == SIGVTALRM) sig = SIGALRM;
 	v_fault.sig = sig; v_fault.addr = si ? si->si_addr : 0; v_fault.code = si ? si->si_code : 0;
 	v_fault.rip = (void *) uc->uc_mcontext.gregs[REG_RIP];
 	if (!v_armed) {
@@ -372,12 +374,14 @@ static void v_install_traps(void)
 	static uint8_t *altstk; altstk = mmap(0, 1 << 18, PROT_READ | PROT_WRITE, MAP_PRIVATE | MAP_ANONYMOUS, -1, 0);
 	stack_t ss = { .ss_sp = altstk, .ss_size = 1 << 18, .ss_flags = 0 }; sigaltstack(&ss, 0);
 	struct sigaction sa; memset(&sa, 0, sizeof sa); sa.sa_sigaction = v_on_fault; sa.sa_flags = SA_SIGINFO | SA_ONSTACK | SA_NODEFER;
-	int sigs[] = { SIGSEGV, SIGBUS, SIGILL, SIGFPE, SIGABRT, SIGALRM };
+	int sigs[] = { SIGSEGV, SIGBUS, SIGILL, SIGFPE, SIGABRT, SIGALRM, SIGVTALRM };
 	for (unsigned i = 0; i < sizeof sigs / sizeof sigs[0]; i++) sigaction(sigs[i], &sa, 0);
 }
 /* if (V_TRY(secs)) { library call(s); V_END; } else { v_describe_fault(); ... }  */
-#define V_TRY(secs) (alarm(secs), v_armed = 1, sigsetjmp(v_jmp, 1) == 0)
-#define V_END do { v_armed = 0; alarm(0); } while (0)
+/* the watchdog counts user CPU time of the process (ITIMER_VIRTUAL), not wall-clock time: a loaded machine cannot make it fire */
+static inline void v_watchdog(int secs) { struct itimerval it; memset(&it, 0, sizeof it); it.it_value.tv_sec = secs; setitimer(ITIMER_VIRTUAL, &it, 0); }
+#define V_TRY(secs) (v_watchdog(secs), v_armed = 1, sigsetjmp(v_jmp, 1) == 0)
+#define V_END do { v_armed = 0; v_watchdog(0); } while (0)
 
 static double v_now(void) { struct timespec t; clock_gettime(CLOCK_MONOTONIC, &t); return t.tv_sec + t.tv_nsec * 1e-9; }
 
@@ -390,7 +394,7 @@ static void v_init(int argc, char **argv)
 }
 static int v_finish(void)
 {
-	alarm(0);
+	v_watchdog(0);
 	v_flush_counts();
 	v_stat("distinct_nontrivial", v_fp_new);
 	if (v_fp_full) v_stat("fp_table_crowded", v_fp_full);
